@@ -126,18 +126,20 @@ type Hist struct {
 	Viol      []Violation
 	Cov       map[string]int64
 
-	needRestart         bool
-	builds              int
-	scanActive          bool
-	inBuild             bool
+	needRestart bool
+	builds      int
+	scanActive  bool
+	inBuild     bool
 	// what this controller lifetime has been through (part of the canonical state: code may remember
 	// objects from before a provider rebuild, from its first scale-up or its first removal)
 	lifeRebuilt, lifeScaledUp, lifeRemoved bool
-	lastLifetimeScanned int
-	journalMark         int
-	Scans               int64
-	Keys                []string // canonical state key after each slot
-	OnSlotEnd           func(h *Hist)
+	lastLifetimeScanned                    int
+	journalMark                            int
+	Scans                                  int64
+	Keys                                   []string // canonical state key after each slot
+	OnSlotEnd                              func(h *Hist)
+	// SawHang: some scan of this history did not return within the virtual-time horizon.
+	SawHang bool
 }
 
 // Decide implements sim.Decider: calls whose operation is in the scenario's fault alphabet are
@@ -326,6 +328,7 @@ func (h *Hist) runOnce() (res ScanResult) {
 	case <-done:
 	case <-horizon.C:
 		res.Hang = true
+		h.SawHang = true
 	}
 	res.Duration = time.Since(start)
 	if res.diverged != nil {
@@ -349,8 +352,20 @@ func Run(t *testing.T, s *Scenario, ch *explore.Chooser, after func(h *Hist)) {
 	InFlightDesc.Store(s.Name + " prefix=" + fmt.Sprint(ch.Run().Prefix))
 	InFlightSince.Store(wallNow())
 	defer InFlightSince.Store(0)
+	// a scan that hangs (reported as such by the history) leaves its goroutines blocked for ever; the
+	// bubble then refuses to end quietly. That complaint is expected after a reported hang, and only then.
+	sawHang := false
+	defer func() {
+		if r := recover(); r != nil {
+			if sawHang && strings.Contains(fmt.Sprint(r), "blocked goroutines remain") {
+				return
+			}
+			panic(r)
+		}
+	}()
 	synctest.Test(t, func(t *testing.T) {
 		h := &Hist{S: s, Ch: ch, W: sim.NewWorld(), Cov: map[string]int64{}}
+		defer func() { sawHang = h.SawHang }()
 		defer func() {
 			if r := recover(); r != nil {
 				if d, ok := r.(explore.Diverged); ok && s.Lenient {
